@@ -96,6 +96,42 @@ def dissimilarity(method, a, b, precision=None, prior_lambda=1.0, prior_weight=0
     raise ValueError(method)
 
 
+def magnitude(method, a, b, precision=None, prior_lambda=1.0, prior_weight=0.1, remove_mean=False):
+    """size of the terms that any evaluation of the formula has to add up for this pair (sum of the
+    absolute values of the terms of the expanded formula, / P).  Rounding errors of a correct
+    implementation are a small multiple of 1e-16 * magnitude; used as the absolute part of the
+    tolerance where the data are not of order one (scale family)."""
+    if method == 'correlation':
+        return 1.0
+    if method == 'poisson':
+        total = 0.0
+        for x, y in zip(a, b):
+            la = (x + prior_lambda * prior_weight) / (1.0 + prior_weight)
+            lb = (y + prior_lambda * prior_weight) / (1.0 + prior_weight)
+            total += (la + lb) * (abs(math.log(la)) + abs(math.log(lb)))
+        return total / len(a)
+    if remove_mean:
+        a, b = remove_pattern_mean(a), remove_pattern_mean(b)
+    n = len(a)
+    if method == 'euclidean' or precision is None:
+        return (sum(v * v for v in a) + sum(v * v for v in b)) / n
+    total = 0.0
+    for v in (a, b):
+        for i in range(n):
+            for j in range(n):
+                total += abs(v[i]) * abs(float(precision[i][j])) * abs(v[j])
+    return 2.0 * total / n
+
+
+def magnitude_table(rows, labels, method, **opts):
+    order, means = condition_means(rows, labels)
+    table = {}
+    for i in range(len(order)):
+        for j in range(i + 1, len(order)):
+            table[(i, j)] = magnitude(method, means[order[i]], means[order[j]], **opts)
+    return table
+
+
 def expected_table(rows, labels, method, **opts):
     """-> (distinct labels, {(i, j): value-or-None for i < j over the distinct labels})"""
     order, means = condition_means(rows, labels)
